@@ -34,7 +34,10 @@ CONTAINERS = {
     "thorough": [("full-rel", ["--depth", "6", "--set", "full"]), ("full-dbg", ["--depth", "5", "--set", "full"]), ("nofin-rel", ["--depth", "5", "--set", "full"])],
 }
 
+CHAIN = {"quick": [("full-dbg", ["--max-n", "24"])], "thorough": [("full-dbg", ["--max-n", "40"]), ("full-rel", ["--max-n", "40"])]}
+
 ENGINES = {
+    "C06": [sub_runs("chain", CHAIN)],
     "C03": [sub_runs("grid", GRID)],
     "C13": [sub_runs("grid", GRID)],
     "C15": [sub_runs("policy", POLICY)],
